@@ -138,6 +138,8 @@ class Explorer:
         self.first_choice = first_choice
         self.paths = 0
         self.infeasible = 0
+        self.deadline = None
+        self.truncated = False
 
     def push(self, prefix):
         self.work.append(prefix)
@@ -147,6 +149,9 @@ class Explorer:
         path is run and every branch is decided by evaluation."""
         self.work = [[]]
         while self.work:
+            if self.deadline is not None and time.time() > self.deadline and shadow is None:
+                self.truncated = True
+                break
             prefix = self.work.pop()
             CTX.reset()
             if shadow is not None:
